@@ -223,7 +223,11 @@ def check(cx):
     for fn, e in census:
         if e.kind == 'call' and e.data.get('local') and e.data['name'] == 'match_wildcard':
             a = e.data['args']
-            mr, tr = mask_role(a[0]), text_role(a[1])
+            # an argument chosen by a conditional expression: every feasible choice must have the role
+            mrs = [mask_role(l) for c_, l in term_cases(a[0]) if sat(And(e.pc, c_)) is not None]
+            trs = [text_role(l) for c_, l in term_cases(a[1]) if sat(And(e.pc, c_)) is not None]
+            mr = mrs[0] if mrs and all(x is not None for x in mrs) else None
+            tr = trs[0] if trs and all(x is not None for x in trs) else None
             r4.instance('%s: match_wildcard(%s, %s)' % (base_fn(fn), mr, tr))
             if mr is None or tr is None:
                 r4.violation('%s|roles|%s' % (base_fn(fn), show_term(a[0])[:40]), 'match_wildcard is called with (%s, %s): the first argument must '
